@@ -21,6 +21,10 @@ pub struct KeyInfo {
     pub desc: String,
     pub fp: Fingerprint,
     pub path: DerivationPath,
+    /// the same key written with OTHER origin information (same derived key, same scripts)
+    pub alt_desc: String,
+    pub alt_fp: Fingerprint,
+    pub alt_path: DerivationPath,
 }
 
 impl KeyInfo {
@@ -72,7 +76,17 @@ pub fn make_pool(rng: &mut Rng, n: usize) -> Pool {
             let ser = pk.serialize();
             let h = hash160::Hash::hash(&ser).to_byte_array();
             let fp = Fingerprint::from([h[0], h[1], h[2], h[3]]);
-            keys.push(KeyInfo { sk, pk, desc: hex(&ser), fp, path: DerivationPath::master() });
+            let alt_path: DerivationPath = vec![ChildNumber::from_normal_idx(1).unwrap(), ChildNumber::from_normal_idx(2).unwrap()].into();
+            keys.push(KeyInfo {
+                sk,
+                pk,
+                desc: hex(&ser),
+                fp,
+                path: DerivationPath::master(),
+                alt_desc: format!("[deadbeef/1/2]{}", hex(&ser)),
+                alt_fp: Fingerprint::from([0xde, 0xad, 0xbe, 0xef]),
+                alt_path,
+            });
         } else {
             let mut full: Vec<ChildNumber> = origin.clone().into();
             full.extend(Vec::<ChildNumber>::from(tail.clone()));
@@ -82,6 +96,13 @@ pub fn make_pool(rng: &mut Rng, n: usize) -> Pool {
                 desc: format!("[{}/86'/1'/{}']{}/0/{}", mfp, j, xpub, c),
                 fp: mfp,
                 path: full.into(),
+                // the xpub one level deeper, without origin: fingerprint of that xpub, path `c`
+                alt_desc: {
+                    let x0 = Xpub::from_priv(&secp, &acct.derive_priv(&secp, &[ChildNumber::from_normal_idx(0).unwrap()]).expect("derive"));
+                    format!("{}/{}", x0, c)
+                },
+                alt_fp: Xpub::from_priv(&secp, &acct.derive_priv(&secp, &[ChildNumber::from_normal_idx(0).unwrap()]).expect("derive")).fingerprint(),
+                alt_path: vec![ChildNumber::from_normal_idx(c).unwrap()].into(),
             });
         }
     }
@@ -208,6 +229,7 @@ fn remap(p: &Pol, lk: &[usize]) -> Pol {
     }
 }
 
+#[derive(Clone)]
 pub struct LeafMat {
     #[allow(dead_code)]
     pub depth: u8,
@@ -220,6 +242,7 @@ pub struct LeafMat {
     pub keys: Vec<usize>,
 }
 
+#[derive(Clone)]
 pub struct TapMat {
     pub internal: XOnlyPublicKey,
     pub spend_info: TaprootSpendInfo,
@@ -228,11 +251,15 @@ pub struct TapMat {
 
 /// Everything about one input: its descriptor, the output it spends, the scripts as the harness
 /// computes them, signatures and preimages that can be added.
+#[derive(Clone)]
 pub struct InputMat {
     pub outer: Outer,
     pub template: String,
     pub desc_str: String,
     pub desc: Descriptor<DefiniteDescriptorKey>,
+    /// a descriptor of the SAME output that states other key origins
+    pub alt_desc: Descriptor<DefiniteDescriptorKey>,
+    pub alt_desc_str: String,
     /// pool indices of the keys of this instance (instance key i = pool key keys[i])
     pub keys: Vec<usize>,
     pub pol: Pol,
@@ -499,6 +526,8 @@ pub fn make_input(pool: &Pool, rng: &mut Rng, ch: &Choice, next_key: &mut dyn Fn
     }
     collect_hash(&pol, &mut uses_hash);
     let desc = Descriptor::<DefiniteDescriptorKey>::from_str(&desc_str).map_err(|e| format!("{}: {}", desc_str, e))?;
+    let alt_desc_str = keys.iter().fold(desc_str.clone(), |acc, k| acc.replace(&pool.keys[*k].desc, &pool.keys[*k].alt_desc));
+    let alt_desc = Descriptor::<DefiniteDescriptorKey>::from_str(&alt_desc_str).map_err(|e| format!("{}: {}", alt_desc_str, e))?;
     // the previous transaction: the spent output sits at a random position
     let vout = rng.below(2) as u32;
     let value = Amount::from_sat(50_000 + (rng.below(1000) as u64));
@@ -528,6 +557,8 @@ pub fn make_input(pool: &Pool, rng: &mut Rng, ch: &Choice, next_key: &mut dyn Fn
         template,
         desc_str,
         desc,
+        alt_desc,
+        alt_desc_str,
         keys,
         pol,
         spk,
@@ -548,6 +579,7 @@ pub fn make_input(pool: &Pool, rng: &mut Rng, ch: &Choice, next_key: &mut dyn Fn
     })
 }
 
+#[derive(Clone)]
 pub struct Case {
     pub tx: Transaction,
     pub inputs: Vec<InputMat>,
@@ -569,6 +601,9 @@ pub fn sign_all(pool: &Pool, case: &mut Case) -> Result<(), String> {
     let tx = case.tx.clone();
     let mut cache = SighashCache::new(&tx);
     for (idx, m) in case.inputs.iter_mut().enumerate() {
+        m.ecdsa_sigs.clear();
+        m.tap_leaf_msgs.clear();
+        m.tap_script_sigs.clear();
         let all = EcdsaSighashType::All;
         let ecdsa_msg: Option<Message> = match m.outer {
             Outer::Pkh | Outer::BarePk => Some(Message::from_digest(
@@ -746,4 +781,18 @@ pub fn both_utxo_base(case: &Case, pool: &Pool, j: usize, variant: usize) -> Psb
     p.inputs[j].witness_utxo = Some(w);
     p.inputs[j].non_witness_utxo = Some(prev);
     p
+}
+
+/// The same inputs spent by another transaction: other version, nLockTime and nSequences;
+/// everything is signed again for it.
+pub fn revariant(pool: &Pool, case: &Case, version: i32, lock_time: u32, seqs: &[u32]) -> Result<Case, String> {
+    let mut c = case.clone();
+    c.tx.version = transaction::Version(version);
+    c.tx.lock_time = absolute::LockTime::from_consensus(lock_time);
+    for (j, s) in seqs.iter().enumerate() {
+        c.tx.input[j].sequence = Sequence(*s);
+        c.inputs[j].sequence = Sequence(*s);
+    }
+    sign_all(pool, &mut c)?;
+    Ok(c)
 }
